@@ -21,7 +21,10 @@ Record listing := { linit : list (list Z);       (* the arrays as setup_tables c
                     lsets : list rset }.
 Record state := { idx : Z; tm : Z; sp : Z; tabs : list (list Z); cur : Z }.
 
-Inductive op := First | Last | Next | Prev | SetIndex (i : Z) | SetTime (t : Z) | SetStep (k : Z) | History.
+(** [History]: a history() call in which at least one specification matches (the file is scanned);
+    [HistoryNone]: a call in which NO specification matches (absent table kind, unknown row name):
+    history() returns None before it rewinds -- nothing at all is touched, not even the file offset *)
+Inductive op := First | Last | Next | Prev | SetIndex (i : Z) | SetTime (t : Z) | SetStep (k : Z) | History | HistoryNone.
 Inductive outcome := ONone | OBool (b : bool) | OExn (e : exn).
 
 Definition nsets (L : listing) : Z := Z.of_nat (length (lsets L)).
@@ -108,6 +111,7 @@ Definition step (L : listing) (s : state) (o : op) : state * outcome :=
                                                  writes _time, _step or a table array; leaves the file offset
                                                  at the end of the scan *)
       ({| idx := idx s; tm := tm s; sp := sp s; tabs := tabs s; cur := nsets L |}, ONone)
+  | HistoryNone => (s, ONone)                 (* tableselection == []: return None, before old_index / rewind() *)
   end.
 
 Fixpoint run (L : listing) (s : state) (ops : list op) : state :=
@@ -403,6 +407,7 @@ Proof.
     destruct (set_near_is_set_index (fun z => z) (steps L) k s T) as (i & Hi & E); [apply map_length|].
     destruct (set_index_range_ok L i s Hi) as (s' & E'). exists i, s'. rewrite E, E'. auto.
   - left. reflexivity.
+  - left. reflexivity.
 Qed.
 
 Lemma open_ok : exists s0, set_index L 0 (blank L) = (s0, ONone) /\ open L = s0.
@@ -535,6 +540,7 @@ Proof.
   - unfold set_near. destruct (nearest_index rnd (times L) t); [apply G|cbn [fst snd]; auto].
   - unfold set_near. destruct (nearest_index _ (steps L) k); [apply G|cbn [fst snd]; auto].
   - cbn [fst snd idx tm sp tabs]. auto.
+  - cbn [fst snd]. auto.
 Qed.
 End Nav.
 
